@@ -31,7 +31,7 @@ def part1(rep, tier):
                       "inference/tseitin_transformation.py:TseitinTransformation.expr_to_signed_id"}
     rep.note("part 1: %d CNFs of %d conditionals validated with %d solver queries, %d unfaithful" % (d["cnfs"], d["conditionals"], d["solver_queries"], d["unfaithful"]))
     for ex in d["examples"][:3]:
-        path = concretise.save_replay(rep.pid, dict(job=None, kind="unfaithful CNF", **ex))
+        path = concretise.save_replay(rep.pid, dict(job=None, what="unfaithful CNF (real stack: vf/tv_cnf.py)", **ex))
         rep.violation("CNF of %s for %s is not faithful (%s at %s): %s" % (ex["kind"], ex["conditional"], ex["why"], ex["assignment"], ex["cnf"]), path)
 
 
